@@ -51,8 +51,9 @@ def gen_C02(rnd, n, tier):
     for i in range(n):
         g = G(rnd, autovar=(i % 4 == 0))
         c = g.cond(0, maxd=rnd.choice([1, 2, 3, 3, 4] if tier == "quick" else [2, 3, 4, 5]))
-        form = rnd.choice(["if", "if", "ifelse", "while", "do", "elif"])
+        form = rnd.choice(["if", "if", "ifelse", "while", "do", "elif", "iflast"])
         if form == "if": body = [("if", [(c, [("cmd", "yes", "yes")])], None), ("cmd", "after", "after")]
+        elif form == "iflast": body = [("cmd", "before", "before"), ("if", [(c, [("cmd", "yes", "yes")])], None)]   # a false condition returns
         elif form == "ifelse": body = [("if", [(c, [("cmd", "yes", "yes")])], [("cmd", "no", "no")])]
         elif form == "elif":
             c2 = g.cond(0, maxd=2)
@@ -135,6 +136,13 @@ def gen_C03(rnd, n, tier):
         body = in_context(sw, rnd.choice(["top", "last", "loop", "switch"]))
         g.patch_gotos(body)
         out.append(ctrl_case(body, list(g.labels), rnd.random() < 0.5, tag="random"))
+    # a third of the cases: other layout (several cases / statements on one source line, comments)
+    # and line markers on - the behaviour of the switch does not depend on either
+    from gen import relayout
+    for c in out:
+        if rnd.random() < 0.33:
+            c.src = relayout(c.src, rnd); c.cfg = c.cfg.copy(lm=True, path="f.pory")
+            c.line = compile_line(c.cfg, c.src)
     return out
 
 def oracle_C03(case, res, rnd):
@@ -259,5 +267,9 @@ def gen_C11(rnd, n, tier):
             body = [("cmd", "before", "before"), ("switch", opnd, sw[2]), ("cmd", "after", "after")]
         cs = ctrl_case(body, [], rnd.random() < 0.5, tag=form)
         cs.meta["textleaves"] = textleaves
+        if i % 5 == 2:
+            # constants named like the configured result variable / like nothing in the program
+            pre = rnd.choice(["const VAR_RESULT = VAR_TEMP_1\n", "const VAR_TEMP_9 = VAR_RESULT\nconst VAR_RESULT = VAR_TEMP_9\n", "const UNUSED = 3\n"])
+            cs.src = pre + cs.src; cs.line = compile_line(cs.cfg, cs.src)
         out.append(cs)
     return out
